@@ -2176,6 +2176,12 @@ def rule_unwind_no_result(cx, tier):
                                                  include_src_succs=True) is None
         # (b) the callee takes a flag that the unwinder fixes to a constant: the write may be conditional on it -- not decided
         const_flag = any(op_const(a) is not None and U.crate.tstr(c.arg_ty(i)) == "bool" for i, a in enumerate(c.args))
+        for i, a in enumerate(c.args):      # `pop_frame(None)`: an Option parameter fixed to None may be what disables the write
+            l = op_local(a)
+            d = du.single_def(l) if l is not None else None
+            if d and d[2] == "assign" and d[3][0] == "agg" and not d[3][2] and "None" in repr(d[3][1]) \
+                    and "option::Option<" in U.crate.tstr(c.arg_ty(i)):
+                const_flag = True
         r.sample({"call": t.qual, "line": c.line, "reaches_set_register_via": [cx.F.fns[p].qual for p in path],
                   "result_register_withdrawn_before": cleared, "constant_flag_argument": const_flag})
         if cleared:
